@@ -273,6 +273,44 @@ class ClientRoles:
                         out[self._inline_key(pat, flags)] = (pat, flags, n)
         return out
 
+    def const_env(self, sn="self"):
+        """{"<sn>.<attr>": fd.Const(value)} for what a fresh Client holds: compiled patterns, class-level constants and the attributes
+        that __init__ sets to constants (bytearray() / bytes() / {} / [] included).  For rules that interpret methods over samples."""
+        import re
+        from sa import fd
+        from sa.consteval import Evaluator, TOP
+        from sa.util import const_value
+        base = {}
+        for a, (pat, flags, _n) in self.regex_attrs.items():
+            if isinstance(pat, (bytes, str)) and not a.startswith("<re:"):
+                try:
+                    cp = re.compile(pat, flags)
+                except re.error:
+                    continue
+                short = a[len("_" + self.cls.name):] if a.startswith("_" + self.cls.name + "__") else a
+                for nm in {a, short}:
+                    base["%s.%s" % (sn, nm)] = fd.Const(cp)
+        ev = Evaluator(self.program, self.module, self.cls)
+        for a_, v_ in self.cls.attrs.items():
+            cv_ = ev.eval(v_)
+            if cv_ is not TOP and isinstance(cv_, (int, str, bytes, bool)):
+                base.setdefault("%s.%s" % (sn, a_), fd.Const(cv_))
+        init = self.methods.get("__init__")
+        if init is not None:
+            for st_ in walk_no_nested(init.node):
+                if isinstance(st_, ast.Assign) and len(st_.targets) == 1 and isinstance(st_.targets[0], ast.Attribute) \
+                        and isinstance(st_.targets[0].value, ast.Name) and st_.targets[0].value.id == init.params[0]:
+                    k = "%s.%s" % (sn, st_.targets[0].attr)
+                    v = const_value(self.program, init, st_.value)
+                    if v is not TOP and isinstance(v, (int, str, bytes, bool, type(None))):
+                        base.setdefault(k, fd.Const(v))
+                    elif isinstance(st_.value, (ast.List, ast.Dict)) and not getattr(st_.value, "elts", getattr(st_.value, "keys", [])):
+                        base.setdefault(k, fd.Const([] if isinstance(st_.value, ast.List) else {}))
+                    elif isinstance(st_.value, ast.Call) and isinstance(st_.value.func, ast.Name) and st_.value.func.id in ("bytearray", "bytes") \
+                            and not st_.value.args:
+                        base.setdefault(k, fd.Const(bytearray() if st_.value.func.id == "bytearray" else b""))
+        return base
+
     @staticmethod
     def _inline_key(pat, flags):
         return "<re:%r/%d>" % (pat, flags)
